@@ -260,14 +260,15 @@ def load(f, **_options):
                 if signal.get("min") is not None:
                     new_signal.min = new_signal.float_factory(signal["min"])
 
-                if signal.get("max", False):
+                if signal.get("max") is not None:
                     new_signal.max = new_signal.float_factory(signal["max"])
 
                 if signal.get("unit", False):
                     new_signal.unit = signal["unit"]
 
-                if signal.get("multiplex", False):
-                    new_signal.multiplex = signal["multiplex"]
+                if signal.get("multiplex") is not None:
+                    # goes through the setter so that multiplexer role and selector value (also 0) are set
+                    new_signal.multiplex = new_signal.multiplex_setter(signal["multiplex"])
 
                 if signal.get("values", False):
                     for key in signal["values"]:
